@@ -87,10 +87,18 @@ Section Machine.
 
   Definition binding_type (t : N) : bool := (t =? pgp_sigtype_subkey_binding) || (t =? pgp_sigtype_subkey_revocation).
 
+  Definition sub_sig_bound (evs : list event) (k : pubkey) (Q : N -> Prop) (sc : sigcore) : Prop :=
+    exists s, subkey_followed_by evs k s /\ s_core s = sc /\ Q (sc_type sc) /\
+              verify_key_sig c P primary k s = Ok tt.
+  Definition is_binding (t : N) : Prop := binding_type t = true.
+  Definition is_pure_binding (t : N) : Prop := t = pgp_sigtype_subkey_binding.
+
   Definition sub_bound (evs : list event) (sk : subkey) : Prop :=
-    exists s, subkey_followed_by evs (sk_key sk) s /\ s_core s = sk_sig sk /\
-              binding_type (sc_type (sk_sig sk)) = true /\
-              verify_key_sig c P primary (sk_key sk) s = Ok tt.
+    sub_sig_bound evs (sk_key sk) is_binding (sk_sig sk) /\
+    match sk_bind sk with
+    | None => True
+    | Some b => sub_sig_bound evs (sk_key sk) is_pure_binding b
+    end.
 
   Lemma id_bound_mono : forall evs more i, id_bound evs i -> id_bound (evs ++ more) i.
   Proof.
@@ -98,11 +106,16 @@ Section Machine.
     exists pre, sigs, (post ++ more). subst evs. rewrite <- app_assoc. simpl. f_equal. f_equal.
     rewrite <- app_assoc. reflexivity.
   Qed.
-  Lemma sub_bound_mono : forall evs more k, sub_bound evs k -> sub_bound (evs ++ more) k.
+  Lemma sub_sig_bound_mono : forall evs more k Q sc, sub_sig_bound evs k Q sc -> sub_sig_bound (evs ++ more) k Q sc.
   Proof.
-    intros evs more k (s & (pre & sec & sigs & post & E) & H). exists s. split; auto.
+    intros evs more k Q sc (s & (pre & sec & sigs & post & E) & H). exists s. split; auto.
     exists pre, sec, sigs, (post ++ more). subst evs. rewrite <- app_assoc. simpl. f_equal. f_equal.
     rewrite <- app_assoc. reflexivity.
+  Qed.
+  Lemma sub_bound_mono : forall evs more k, sub_bound evs k -> sub_bound (evs ++ more) k.
+  Proof.
+    intros evs more k [A B]. split; [now apply sub_sig_bound_mono|].
+    destruct (sk_bind k); auto. now apply sub_sig_bound_mono.
   Qed.
 
   Definition st_inv (done : list event) (st : est) : Prop :=
@@ -115,6 +128,13 @@ Section Machine.
     - eapply Forall_impl; [|exact B]. intros. now apply sub_bound_mono.
   Qed.
 
+  Definition slot_inv (k : pubkey) (sigs : list sigp) (Q : N -> Prop) (o : option sigcore) : Prop :=
+    match o with
+    | None => True
+    | Some sc => exists s1 s s2, sigs = s1 ++ s :: s2 /\ s_core s = sc /\ Q (sc_type sc) /\
+                   verify_key_sig c P primary k s = Ok tt
+    end.
+
   Definition mode_inv (done : list event) (m : mode) : Prop :=
     match m with
     | MTop => True
@@ -125,14 +145,26 @@ Section Machine.
           | Some sc => exists s1 s s2, sigs = s1 ++ s :: s2 /\ s_core s = sc /\
                          is_self_cert pid sc = true /\ verify_uid_sig c P primary name sc = Ok tt
           end
-    | MSub k sg =>
+    | MSub k sg bd =>
         exists pre sec sigs, done = pre ++ EvP (PKey true sec k) :: sig_evs sigs /\
-          match sg with
-          | None => True
-          | Some sc => exists s1 s s2, sigs = s1 ++ s :: s2 /\ s_core s = sc /\
-                         binding_type (sc_type sc) = true /\ verify_key_sig c P primary k s = Ok tt
-          end
+          slot_inv k sigs is_binding sg /\ slot_inv k sigs is_pure_binding bd
     end.
+
+  Lemma slot_inv_snoc : forall k sigs Q o s, slot_inv k sigs Q o -> slot_inv k (sigs ++ [s]) Q o.
+  Proof.
+    intros k sigs Q o s H. destruct o as [sc|]; simpl in *; auto.
+    destruct H as (s1 & s0 & s2 & Es & R). exists s1, s0, (s2 ++ [s]). split; auto.
+    rewrite Es. rewrite <- app_assoc. reflexivity.
+  Qed.
+  Lemma slot_inv_new : forall k sigs (Q : N -> Prop) s, Q (sc_type (s_core s)) -> verify_key_sig c P primary k s = Ok tt ->
+    slot_inv k (sigs ++ [s]) Q (Some (s_core s)).
+  Proof. intros k sigs Q s Hq Hv. simpl. exists sigs, s, []. auto. Qed.
+  Lemma slot_bound : forall pre sec k sigs Q sc, slot_inv k sigs Q (Some sc) ->
+    sub_sig_bound (pre ++ EvP (PKey true sec k) :: sig_evs sigs) k Q sc.
+  Proof.
+    intros pre sec k sigs Q sc (s1 & s & s2 & Es & Ec & Hc & Hv). exists s. repeat split; auto.
+    exists pre, sec, s1, (sig_evs s2). subst sigs. rewrite sig_evs_app. reflexivity.
+  Qed.
 
   Lemma put_identity_Forall : forall (Q : identity -> Prop) i l, Q i -> Forall Q l -> Forall Q (put_identity i l).
   Proof.
@@ -144,7 +176,7 @@ Section Machine.
   Lemma close_inv : forall done st m st', st_inv done st -> mode_inv done m ->
     close_mode st m = Ok st' -> st_inv done st'.
   Proof.
-    intros done st m st' [A B] M H. destruct m as [|name self others|k sg]; simpl in H.
+    intros done st m st' [A B] M H. destruct m as [|name self others|k sg bd]; simpl in H.
     - inversion H; subst. split; auto.
     - destruct self as [sc|]; inversion H; subst; [|split; auto].
       split; auto. simpl. apply put_identity_Forall; auto.
@@ -153,9 +185,10 @@ Section Machine.
       exists pre, s1, (sig_evs s2). subst done sigs. rewrite sig_evs_app. reflexivity.
     - destruct sg as [sc|]; [|discriminate]. inversion H; subst. split; auto. simpl.
       apply Forall_app. split; auto. constructor; auto.
-      destruct M as (pre & sec & sigs & E & s1 & s & s2 & Es & Ec & Hc & Hv).
-      exists s. simpl. repeat split; auto.
-      exists pre, sec, s1, (sig_evs s2). subst done sigs. rewrite sig_evs_app. reflexivity.
+      destruct M as (pre & sec & sigs & E & S1 & S2). subst done.
+      split; simpl.
+      + now apply slot_bound.
+      + destruct bd as [b|]; auto. now apply slot_bound.
   Qed.
 
   Definition next_inv (done : list event) (n : next) : Prop :=
@@ -167,11 +200,12 @@ Section Machine.
   Lemma top_step_inv : forall done st p, st_inv done st -> next_inv (done ++ [EvP p]) (top_step st p).
   Proof.
     intros done st p I. pose proof (st_inv_mono done [EvP p] st I) as I'.
-    destruct p as [sub sec k|id|s]; simpl.
-    - destruct sub; simpl; auto. split; auto. exists done, sec, []. simpl. split; auto.
+    destruct p as [sub sec k|id|s|]; simpl.
+    - destruct sub; simpl; auto. split; auto. exists done, sec, []. simpl. auto.
     - split; auto. exists done, []. simpl. split; auto.
     - destruct (sc_type (s_core s) =? pgp_sigtype_key_revocation); simpl; split; auto.
       all: try (destruct I' as [A B]; split; auto).
+    - split; auto.
   Qed.
 
   Lemma snoc_sig : forall pre x sigs s,
@@ -190,17 +224,19 @@ Section Machine.
   Lemma step_uid_sig : forall st name self others s,
     step c P primary pid st (MUid name self others) (PSig s) =
       if is_self_cert pid (s_core s)
-      then bind (verify_uid_sig c P primary name (s_core s)) (fun _ => Ok (Cont st (MUid name (Some (s_core s)) others)))
+      then bind (verify_uid_sig c P primary name (s_core s))
+             (fun _ => Ok (Cont st (MUid name (if should_replace_self c self (s_core s) then Some (s_core s) else self) others)))
       else Ok (Cont st (MUid name self (others ++ [s_core s]))).
   Proof. reflexivity. Qed.
 
-  Lemma step_sub_sig : forall st k sg s,
-    step c P primary pid st (MSub k sg) (PSig s) =
+  Lemma step_sub_sig : forall st k sg bd s,
+    step c P primary pid st (MSub k sg bd) (PSig s) =
       if negb (binding_type (sc_type (s_core s))) then Err "subkey signature with wrong type"
       else bind (verify_key_sig c P primary k s) (fun _ =>
-             if sc_type (s_core s) =? pgp_sigtype_subkey_revocation then Ok (Cont st (MSub k (Some (s_core s))))
-             else if should_replace sg (s_core s) then Ok (Cont st (MSub k (Some (s_core s))))
-             else Ok (Cont st (MSub k sg))).
+             if sc_type (s_core s) =? pgp_sigtype_subkey_revocation then Ok (Cont st (MSub k (Some (s_core s)) bd))
+             else if should_replace sg (s_core s)
+                  then Ok (Cont st (MSub k (Some (s_core s)) (if should_replace bd (s_core s) then Some (s_core s) else bd)))
+                  else Ok (Cont st (MSub k sg (if should_replace bd (s_core s) then Some (s_core s) else bd)))).
   Proof. reflexivity. Qed.
 
   Lemma step_inv : forall done st m p n, st_inv done st -> mode_inv done m ->
@@ -208,36 +244,43 @@ Section Machine.
   Proof.
     intros done st m p n I M H.
     destruct (is_sig_packet p) eqn:Ep.
-    - destruct p as [| |s]; try discriminate.
-      destruct m as [|name self others|k sg].
+    - destruct p as [| |s|]; try discriminate.
+      destruct m as [|name self others|k sg bd].
       + rewrite step_top in H. injection H as <-. exact (top_step_inv done st (PSig s) I).
       + rewrite step_uid_sig in H. destruct M as (pre & sigs & E & Hs).
         destruct (is_self_cert pid (s_core s)) eqn:Esc.
         * apply bind_ok' in H. destruct H as [u [Ev H]]. destruct u. inversion H; subst n.
           split; [now apply st_inv_mono|].
           exists pre, (sigs ++ [s]). rewrite E. split; [apply snoc_sig|].
-          exists sigs, s, []. repeat split; auto.
+          destruct (should_replace_self c self (s_core s)).
+          { exists sigs, s, []. repeat split; auto. }
+          destruct self as [sc|]; auto.
+          destruct Hs as (s1 & s0 & s2 & Es & R). exists s1, s0, (s2 ++ [s]). split; auto.
+          rewrite Es. rewrite <- app_assoc. reflexivity.
         * inversion H; subst n. split; [now apply st_inv_mono|].
           exists pre, (sigs ++ [s]). rewrite E. split; [apply snoc_sig|].
           destruct self as [sc|]; auto.
           destruct Hs as (s1 & s0 & s2 & Es & R). exists s1, s0, (s2 ++ [s]). split; auto.
           rewrite Es. rewrite <- app_assoc. reflexivity.
-      + rewrite step_sub_sig in H. destruct M as (pre & sec & sigs & E & Hs).
+      + rewrite step_sub_sig in H. destruct M as (pre & sec & sigs & E & Hs & Hb).
         destruct (binding_type (sc_type (s_core s))) eqn:Et; simpl negb in H; cbv iota in H; [|discriminate].
         apply bind_ok' in H. destruct H as [u [Ev H]]. destruct u.
-        assert (New : mode_inv (done ++ [EvP (PSig s)]) (MSub k (Some (s_core s)))).
-        { exists pre, sec, (sigs ++ [s]). rewrite E. split; [apply snoc_sig|].
-          exists sigs, s, []. repeat split; auto. }
-        assert (Old : mode_inv (done ++ [EvP (PSig s)]) (MSub k sg)).
-        { exists pre, sec, (sigs ++ [s]). rewrite E. split; [apply snoc_sig|].
-          destruct sg as [sc|]; auto.
-          destruct Hs as (s1 & s0 & s2 & Es & R). exists s1, s0, (s2 ++ [s]). split; auto.
-          rewrite Es. rewrite <- app_assoc. reflexivity. }
-        destruct (sc_type (s_core s) =? pgp_sigtype_subkey_revocation).
-        * inversion H; subst n. split; [now apply st_inv_mono | exact New].
-        * destruct (should_replace sg (s_core s)); inversion H; subst n;
-            (split; [now apply st_inv_mono | auto]).
-    - destruct m as [|name self others|k sg].
+        assert (Sg : forall o, slot_inv k sigs is_binding o ->
+                  slot_inv k (sigs ++ [s]) is_binding o /\ slot_inv k (sigs ++ [s]) is_binding (Some (s_core s))).
+        { intros o Ho. split; [now apply slot_inv_snoc | now apply slot_inv_new]. }
+        assert (Mk : forall sg' bd', slot_inv k (sigs ++ [s]) is_binding sg' -> slot_inv k (sigs ++ [s]) is_pure_binding bd' ->
+                  mode_inv (done ++ [EvP (PSig s)]) (MSub k sg' bd')).
+        { intros sg' bd' A1 A2. exists pre, sec, (sigs ++ [s]). rewrite E. split; [apply snoc_sig | auto]. }
+        destruct (Sg sg Hs) as [Sold Snew].
+        pose proof (slot_inv_snoc k sigs is_pure_binding bd s Hb) as Bold.
+        destruct (sc_type (s_core s) =? pgp_sigtype_subkey_revocation) eqn:Er.
+        * inversion H; subst n. split; [now apply st_inv_mono | now apply Mk].
+        * assert (Bnew : slot_inv k (sigs ++ [s]) is_pure_binding (Some (s_core s))).
+          { apply slot_inv_new; auto. unfold is_pure_binding. unfold binding_type in Et.
+            apply orb_true_iff in Et. destruct Et as [Et|Et]; [now apply N.eqb_eq in Et | congruence]. }
+          destruct (should_replace sg (s_core s)); destruct (should_replace bd (s_core s)); inversion H; subst n;
+            (split; [now apply st_inv_mono | now apply Mk]).
+    - destruct m as [|name self others|k sg bd].
       + rewrite step_top in H. injection H as <-. exact (top_step_inv done st p I).
       + rewrite step_close in H by (discriminate || assumption).
         apply bind_ok' in H. destruct H as [st' [Ec H]]. injection H as <-.
@@ -292,7 +335,7 @@ Theorem read_entity_bound : forall c P evs e, read_entity c P evs = Ok e ->
 Proof.
   intros c P evs e H. unfold read_entity in H.
   destruct evs as [|[p| | | |] rest]; try discriminate.
-  destruct p as [sub sec k|id|s]; try discriminate.
+  destruct p as [sub sec k|id|s|]; try discriminate.
   destruct (algo_can_sign (pk_algo k)) eqn:Ea; simpl in H; [|discriminate].
   pose proof (run_inv c P k (key_id (p_H P) k) rest [EvP (PKey sub sec k)] (mkest [] [] []) MTop e) as R.
   destruct R as (A & B & E1 & E2); auto.
@@ -456,9 +499,9 @@ Proof. intros. reflexivity. Qed.
 
 (* F8: unprotected secret key with a cv25519 subkey *)
 Definition f8_key : pubkey := mkpub 1 18 (KECDH oid_x25519 (mkmpi 263 (64 :: repeat 7 32)) [3; 1; 8; 7]).
-Lemma f8_legacy_panics : forall P, parse_secret_tail legacy P f8_key false [0; 0; 8; 1; 0; 1] = Panic "impossible".
+Lemma f8_legacy_panics : forall P, parse_secret_tail legacy P f8_key true [0; 0; 8; 1; 0; 1] = Panic "impossible".
 Proof. intros. reflexivity. Qed.
-Lemma f8_fixed_parses : forall P, parse_secret_tail fixed P f8_key false [0; 0; 8; 1; 0; 1] = Ok tt.
+Lemma f8_fixed_parses : forall P, parse_secret_tail fixed P f8_key true [0; 0; 8; 1; 0; 1] = Ok tt.
 Proof. intros. reflexivity. Qed.
 
 (* F7, second form: a 21-octet EdDSA point reached ed25519.Verify, which panics *)
@@ -506,11 +549,34 @@ Theorem subkey_bound : forall c P evs e, read_entity c P evs = Ok e ->
          sig_accepted c P (sk_key sk) (binding_hash_input (e_primary e) (sk_key sk) ++ suffix x) x).
 Proof.
   intros c P evs e R sk Hs. destruct (read_entity_bound _ _ _ _ R) as (_ & _ & _ & _ & B).
-  rewrite Forall_forall in B. destruct (B sk Hs) as (s & U & Ec & T & V). exists s.
+  rewrite Forall_forall in B. destruct (B sk Hs) as ((s & U & Ec & T & V) & _). exists s.
   apply verify_key_sig_inv in V. rewrite Ec in V. destruct V as [V1 V2].
   split; [exact U|]. split; [exact Ec|]. split.
-  { unfold binding_type in T. apply orb_true_iff in T. destruct T as [T|T]; apply N.eqb_eq in T; auto. }
+  { unfold is_binding, binding_type in T. apply orb_true_iff in T. destruct T as [T|T]; apply N.eqb_eq in T; auto. }
   split; [exact V1 | exact V2].
+Qed.
+
+(* the signature whose usage and lifetime a subkey shows (the binding signature kept beside a
+   revocation, F41) has passed the same verification *)
+Theorem subkey_shown_bound : forall c P evs e, read_entity c P evs = Ok e ->
+  forall sk, In sk (e_subkeys e) ->
+    exists s, subkey_followed_by evs (sk_key sk) s /\ s_core s = sk_shown c sk /\
+      (sc_type (sk_shown c sk) = pgp_sigtype_subkey_binding \/ sc_type (sk_shown c sk) = pgp_sigtype_subkey_revocation) /\
+      sig_accepted c P (e_primary e) (binding_hash_input (e_primary e) (sk_key sk) ++ suffix (sk_shown c sk)) (sk_shown c sk).
+Proof.
+  intros c P evs e R sk Hs. destruct (read_entity_bound _ _ _ _ R) as (_ & _ & _ & _ & B).
+  rewrite Forall_forall in B. destruct (B sk Hs) as ((s & U & Ec & T & V) & Bd).
+  assert (Main : exists s, subkey_followed_by evs (sk_key sk) s /\ s_core s = sk_sig sk /\
+      (sc_type (sk_sig sk) = pgp_sigtype_subkey_binding \/ sc_type (sk_sig sk) = pgp_sigtype_subkey_revocation) /\
+      sig_accepted c P (e_primary e) (binding_hash_input (e_primary e) (sk_key sk) ++ suffix (sk_sig sk)) (sk_sig sk)).
+  { exists s. apply verify_key_sig_inv in V. rewrite Ec in V. destruct V as [V1 _].
+    split; [exact U|]. split; [exact Ec|]. split; [|exact V1].
+    unfold is_binding, binding_type in T. apply orb_true_iff in T. destruct T as [T|T]; apply N.eqb_eq in T; auto. }
+  unfold sk_shown. destruct (fix41 c && (sc_type (sk_sig sk) =? pgp_sigtype_subkey_revocation)); [|exact Main].
+  destruct (sk_bind sk) as [b|]; [|exact Main].
+  destruct Bd as (s' & U' & Ec' & T' & V'). exists s'.
+  apply verify_key_sig_inv in V'. rewrite Ec' in V'. destruct V' as [V1 _].
+  split; [exact U'|]. split; [exact Ec'|]. split; [left; exact T' | exact V1].
 Qed.
 
 (* a concrete input meets the hypotheses: a key, a user ID and a certification that the
@@ -723,21 +789,16 @@ Proof.
   destruct (pk_algo k =? 18); repeat np_step.
 Qed.
 
-Lemma parse_secret_tail_np : forall c P k short l, fix8 c = true -> params_np P -> np (parse_secret_tail c P k short l).
+Lemma parse_secret_tail_np : forall c P k complete l, fix8 c = true -> params_np P -> np (parse_secret_tail c P k complete l).
 Proof.
-  intros c P k short l H8 HP. unfold parse_secret_tail. destruct l as [|s2k r]; try reflexivity.
+  intros c P k complete l H8 HP. unfold parse_secret_tail. destruct l as [|s2k r]; try reflexivity.
   destruct (s2k =? 0).
-  { destruct short; [reflexivity | now apply parse_private_np]. }
+  { destruct complete; [now apply parse_private_np | reflexivity]. }
   destruct ((s2k =? 254) || (s2k =? 255)); try reflexivity.
-  destruct r as [|cipher [|t [|h r1]]]; try reflexivity.
-  destruct (negb (hash_id_ok h)); try reflexivity.
-  destruct (negb (p_avail P h)); try reflexivity.
-  apply np_bind.
-  - destruct (t =? 0); try reflexivity. destruct (t =? 1).
-    { destruct (read_n 8 r1) as [[? ?]|]; reflexivity. }
-    destruct (t =? 3); try reflexivity. destruct (read_n 9 r1) as [[? ?]|]; reflexivity.
-  - intros r2 _. destruct (cipher_block_size cipher =? 0); try reflexivity.
-    destruct (read_n _ r2) as [[? ?]|]; try reflexivity. destruct short; reflexivity.
+  destruct r as [|cipher r1]; try reflexivity.
+  destruct (s2k_parse P complete r1) as [r2| |]; try reflexivity.
+  destruct (cipher_block_size cipher =? 0); try reflexivity.
+  destruct (read_n _ r2) as [[? ?]|]; try reflexivity. destruct complete; reflexivity.
 Qed.
 
 (* packets and events *)
@@ -745,45 +806,72 @@ Definition packet_ok (p : packet) : Prop := match p with PKey _ _ k => key_ok k 
 Definition event_ok (ev : event) : Prop :=
   match ev with EvP p => packet_ok p | EvPanic => False | _ => True end.
 
-Lemma read_packet_ok : forall c P tag body short, fix7 c = true -> fix8 c = true -> params_np P ->
-  match read_packet c P tag body short with
+Lemma fin_ok : forall complete p, packet_ok p ->
+  match fin complete p with RPanic => False | RP q => packet_ok q | _ => True end.
+Proof. intros complete p H. destruct complete; simpl; auto. Qed.
+
+Lemma rd_of_err_ok : forall e, match rd_of_err e with RPanic => False | RP q => packet_ok q | _ => True end.
+Proof. intros e. unfold rd_of_err. destruct (String.eqb e miss); [exact I|]. destruct (String.eqb e eof); exact I. Qed.
+
+Ltac rp_trivial :=
+  repeat match goal with
+  | |- match (if ?b then _ else _) with _ => _ end => destruct b
+  | |- match (match ?x with _ => _ end) with _ => _ end => destruct x
+  | |- match fin ?c POther with _ => _ end => exact (fin_ok c POther I)
+  | |- _ => exact I
+  end.
+
+Lemma read_packet_ok : forall c P tag body complete, fix7 c = true -> fix8 c = true -> params_np P ->
+  match read_packet c P tag body complete with
   | RPanic => False
   | RP p => packet_ok p
   | _ => True
   end.
 Proof.
-  intros c P tag body short H7 H8 HP. pose proof HP as (_ & _ & He & _). unfold read_packet.
+  intros c P tag body complete H7 H8 HP. pose proof HP as (_ & _ & He & _). unfold read_packet.
   destruct ((tag =? 2) || (tag =? 6) || (tag =? 14)).
-  { destruct body as [|v b]; [destruct short; exact I|].
-    destruct (v <? 4); [exact I|].
+  { destruct body as [|v b]; [destruct complete; exact I|].
+    destruct (v <? 4).
+    { destruct (tag =? 2); [destruct (parse_sig_v3 (v :: b)) | destruct (parse_key_v3 (v :: b))];
+        try exact I; exact (fin_ok complete POther I). }
     destruct (tag =? 2).
     - pose proof (parse_sig_fuel_np (S (length (v :: b))) (v :: b)) as N. unfold parse_sig.
-      destruct (parse_sig_fuel _ _) as [[s [|? ?]]|e|s]; try exact I; try discriminate.
-      unfold rd_of_err. destruct (String.eqb e miss); exact I.
+      destruct (parse_sig_fuel _ _) as [[s ?]|e|s]; try discriminate.
+      + exact (fin_ok complete (PSig s) I).
+      + apply rd_of_err_ok.
     - pose proof (parse_public_key_np c (p_ecok P) (v :: b) H7 He) as N.
-      destruct (parse_public_key c (p_ecok P) (v :: b)) as [[k [|? ?]]|e|s] eqn:E; try exact I; try discriminate.
-      + simpl. eapply parse_public_key_ok; eauto.
-      + unfold rd_of_err. destruct (String.eqb e miss); exact I. }
+      destruct (parse_public_key c (p_ecok P) (v :: b)) as [[k ?]|e|s] eqn:E; try discriminate.
+      + apply fin_ok. simpl. eapply parse_public_key_ok; eauto.
+      + apply rd_of_err_ok. }
   destruct ((tag =? 5) || (tag =? 7)).
   { pose proof (parse_public_key_np c (p_ecok P) body H7 He) as N.
     destruct (parse_public_key c (p_ecok P) body) as [[k tail]|e|s] eqn:E; try discriminate.
-    - pose proof (parse_secret_tail_np c P k short tail H8 HP) as N2.
-      destruct (parse_secret_tail c P k short tail) as [u|e|s]; try discriminate.
+    - pose proof (parse_secret_tail_np c P k complete tail H8 HP) as N2.
+      destruct (parse_secret_tail c P k complete tail) as [u|e|s]; try discriminate.
       + simpl. eapply parse_public_key_ok; eauto.
-      + unfold rd_of_err. destruct (String.eqb e miss); exact I.
-    - unfold rd_of_err. destruct (String.eqb e miss); exact I. }
-  destruct (tag =? 13). { destruct short; exact I. }
-  destruct (unmodelled_tag tag); exact I.
+      + apply rd_of_err_ok.
+    - apply rd_of_err_ok. }
+  destruct (tag =? 13). { exact (fin_ok complete (PUid body) I). }
+  destruct (tag =? 1). { rp_trivial. }
+  destruct (tag =? 3). { rp_trivial. }
+  destruct (tag =? 4). { rp_trivial. }
+  destruct (tag =? 17). { rp_trivial. }
+  destruct (tag =? 8). { rp_trivial. }
+  destruct (tag =? 9). { exact I. }
+  destruct (tag =? 18). { rp_trivial. }
+  destruct (tag =? 11). { rp_trivial. }
+  exact I.
 Qed.
 
 Lemma events_fuel_ok : forall fuel c P l, fix7 c = true -> fix8 c = true -> params_np P ->
   Forall event_ok (events_fuel fuel c P l).
 Proof.
   induction fuel; intros c P l H7 H8 HP; simpl; [constructor|].
-  destruct (read_header l) as [| | |tag len rest]; try (repeat constructor).
-  set (short := lenN rest <? len). set (n := if short then length rest else N.to_nat len).
-  pose proof (read_packet_ok c P tag (take n rest) short H7 H8 HP) as R.
-  destruct (read_packet c P tag (take n rest) short); try (repeat constructor); auto.
+  destruct (read_header l) as [| |tag br rest]; try (repeat constructor).
+  destruct (read_body br rest) as [[body complete] after].
+  pose proof (read_packet_ok c P tag body complete H7 H8 HP) as R.
+  destruct (read_packet c P tag body complete); try (repeat constructor); auto.
+  destruct (skip_content br k rest); repeat constructor; auto.
 Qed.
 
 (* verification *)
@@ -833,18 +921,19 @@ Proof.
   destruct (String.eqb e miss); reflexivity.
 Qed.
 
-Definition mode_ok (m : mode) : Prop := match m with MSub k _ => key_ok k | _ => True end.
+Definition mode_ok (m : mode) : Prop := match m with MSub k _ _ => key_ok k | _ => True end.
 
 Lemma close_mode_np : forall st m, np (close_mode st m).
-Proof. intros st m. destruct m as [|n [s|] o|k [s|]]; reflexivity. Qed.
+Proof. intros st m. destruct m as [|n [s|] o|k [s|] b]; reflexivity. Qed.
 
 Lemma top_step_mode_ok : forall st p, packet_ok p ->
   match top_step st p with Cont _ m => mode_ok m | Stop _ => True end.
 Proof.
-  intros st p Hp. destruct p as [sub sec k|id|s]; simpl.
+  intros st p Hp. destruct p as [sub sec k|id|s|]; simpl.
   - destruct sub; simpl; auto.
   - exact I.
   - destruct (_ =? _); exact I.
+  - exact I.
 Qed.
 
 Lemma step_np : forall c P primary pid st m p, params_np P -> key_ok primary -> mode_ok m -> packet_ok p ->
@@ -853,7 +942,7 @@ Lemma step_np : forall c P primary pid st m p, params_np P -> key_ok primary -> 
 Proof.
   intros c P primary pid st m p HP Hk Hm Hp.
   destruct (is_sig_packet p) eqn:Ep.
-  - destruct p as [| |s]; try discriminate. destruct m as [|name self others|k sg].
+  - destruct p as [| |s|]; try discriminate. destruct m as [|name self others|k sg bd].
     + rewrite step_top. split; [reflexivity|]. intros n E. injection E as <-. exact (top_step_mode_ok st (PSig s) Hp).
     + rewrite step_uid_sig. destruct (is_self_cert pid (s_core s)).
       * split.
@@ -868,7 +957,7 @@ Proof.
       { intros n E. apply bind_ok' in E. destruct E as [u [_ E]].
         destruct (_ =? _); [injection E as <-; exact Hm|].
         destruct (should_replace sg (s_core s)); injection E as <-; exact Hm. }
-  - destruct m as [|name self others|k sg].
+  - destruct m as [|name self others|k sg bd].
     + rewrite step_top. split; [reflexivity|]. intros n E. injection E as <-. exact (top_step_mode_ok st p Hp).
     + rewrite step_close by (discriminate || assumption). split.
       { apply np_bind; [apply close_mode_np | intros; reflexivity]. }
@@ -904,7 +993,7 @@ Proof.
   unfold read_entity. destruct (events_of c P stream) as [|ev rest]; [reflexivity|].
   inversion Hev as [|? ? Hev1 Hev2]; subst.
   destruct ev as [p| | | |]; try reflexivity; [|contradiction].
-  destruct p as [sub sec k|id|s]; try reflexivity.
+  destruct p as [sub sec k|id|s|]; try reflexivity.
   destruct (negb (algo_can_sign (pk_algo k))); [reflexivity|].
   apply run_packets_np; auto. exact I.
 Qed.
@@ -917,33 +1006,93 @@ Qed.
 Lemma read_n_lengths : forall n l a r, read_n n l = Some (a, r) -> (length l = length a + length r)%nat.
 Proof. intros n l a r H. apply read_n_spec in H. destruct H as [H _]. subst l. apply app_length. Qed.
 
-Lemma read_header_shorter : forall l tag len rest, read_header l = HPkt tag len rest -> (length rest < length l)%nat.
+Lemma read_length_shorter : forall r len p rest, read_length r = Some (len, p, rest) -> (length rest < length r)%nat.
 Proof.
-  intros l tag len rest H. unfold read_header in H. destruct l as [|b r]; [discriminate|].
+  intros r len p rest H. unfold read_length in H. destruct r as [|l0 r1]; [discriminate|].
+  destruct (l0 <? 192); [inversion H; subst; simpl; lia|].
+  destruct (l0 <? 224).
+  { destruct r1 as [|l1 r2]; [discriminate|]. inversion H; subst. simpl. lia. }
+  destruct (l0 <? 255); [inversion H; subst; simpl; lia|].
+  destruct (read_n 4 r1) as [[lb rest']|] eqn:E; [|discriminate]. inversion H; subst.
+  apply read_n_lengths in E. simpl. lia.
+Qed.
+
+Lemma read_header_shorter : forall l tag br rest, read_header l = HPkt tag br rest -> (length rest < length l)%nat.
+Proof.
+  intros l tag br rest H. unfold read_header in H. destruct l as [|b r]; [discriminate|].
   destruct (b <? 128); [discriminate|].
   destruct (N.land b 64 =? 0).
-  - destruct (N.land b 3 =? 3); [discriminate|].
+  - destruct (N.land b 3 =? 3); [inversion H; subst; simpl; lia|].
     destruct (read_n _ r) as [[lb rest']|] eqn:E; [|discriminate]. inversion H; subst.
     apply read_n_lengths in E. simpl. lia.
-  - destruct r as [|l0 r1]; [discriminate|].
-    destruct (l0 <? 192); [inversion H; subst; simpl; lia|].
-    destruct (l0 <? 224).
-    { destruct r1 as [|l1 r2]; [discriminate|]. inversion H; subst. simpl. lia. }
-    destruct (l0 <? 255); [discriminate|].
-    destruct (read_n 4 r1) as [[lb rest']|] eqn:E; [|discriminate]. inversion H; subst.
-    apply read_n_lengths in E. simpl. lia.
+  - destruct (read_length r) as [[[len p] rest']|] eqn:E; [|discriminate]. inversion H; subst.
+    apply read_length_shorter in E. simpl. lia.
+Qed.
+
+Lemma partial_body_after : forall fuel rem r b ok after,
+  partial_body fuel rem r = (b, ok, after) -> (length after <= length r)%nat.
+Proof.
+  induction fuel; intros rem r b ok after H; simpl in H.
+  - inversion H; subst. simpl. lia.
+  - destruct (read_n rem r) as [[chunk r1]|] eqn:E1; [|inversion H; subst; simpl; lia].
+    apply read_n_lengths in E1.
+    destruct (read_length r1) as [[[len p] r2]|] eqn:E2; [|inversion H; subst; simpl; lia].
+    apply read_length_shorter in E2.
+    destruct p.
+    + destruct (partial_body fuel len r2) as [[b' ok'] r3] eqn:E3. inversion H; subst.
+      apply IHfuel in E3. lia.
+    + destruct (read_n len r2) as [[last r3]|] eqn:E3.
+      * apply read_n_lengths in E3. inversion H; subst. lia.
+      * inversion H; subst. simpl. lia.
+Qed.
+
+Lemma read_body_after : forall br r b ok after, read_body br r = (b, ok, after) -> (length after <= length r)%nat.
+Proof.
+  intros br r b ok after H. destruct br as [n|rem|]; unfold read_body in H.
+  - destruct (read_n n r) as [[x r1]|] eqn:E.
+    + apply read_n_lengths in E. inversion H; subst. lia.
+    + inversion H; subst. simpl. lia.
+  - eapply partial_body_after; eauto.
+  - inversion H; subst. simpl. lia.
+Qed.
+
+Lemma partial_skip_shorter : forall fuel k rem more r r',
+  partial_skip fuel k rem more r = Some r' -> (length r' <= length r)%nat.
+Proof.
+  induction fuel; intros k rem more r r' H; simpl in H.
+  - destruct (k =? 0); [inversion H; subst; lia | discriminate].
+  - destruct (k =? 0); [inversion H; subst; lia|].
+    destruct (rem =? 0).
+    + destruct more; [|discriminate].
+      destruct (read_length r) as [[[len p] r1]|] eqn:E; [|discriminate].
+      apply read_length_shorter in E. apply IHfuel in H. lia.
+    + destruct (read_n (N.min k rem) r) as [[x r1]|] eqn:E; [|discriminate].
+      apply read_n_lengths in E. apply IHfuel in H. lia.
+Qed.
+
+Lemma skip_content_shorter : forall br k r r', skip_content br k r = Some r' -> (length r' <= length r)%nat.
+Proof.
+  intros br k r r' H. destruct br as [n|rem|]; unfold skip_content in H.
+  - destruct (k <=? n); [|discriminate].
+    destruct (read_n k r) as [[x r1]|] eqn:E; [|discriminate]. inversion H; subst.
+    apply read_n_lengths in E. lia.
+  - eapply partial_skip_shorter; eauto.
+  - destruct (read_n k r) as [[x r1]|] eqn:E; [|discriminate]. inversion H; subst.
+    apply read_n_lengths in E. lia.
 Qed.
 
 Theorem events_fuel_stable : forall f1 f2 c P l, (length l < f1)%nat -> (length l < f2)%nat ->
   events_fuel f1 c P l = events_fuel f2 c P l.
 Proof.
   induction f1; intros f2 c P l H1 H2; [lia|]. destruct f2; [lia|]. simpl.
-  destruct (read_header l) as [| | |tag len rest] eqn:E; auto.
+  destruct (read_header l) as [| |tag br rest] eqn:E; auto.
   apply read_header_shorter in E.
-  set (short := lenN rest <? len). set (n := if short then length rest else N.to_nat len).
-  assert (L : (length (drop n rest) <= length rest)%nat) by (rewrite drop_length; lia).
-  destruct (read_packet c P tag (take n rest) short); auto.
+  destruct (read_body br rest) as [[body complete] after] eqn:Eb.
+  apply read_body_after in Eb.
+  destruct (read_packet c P tag body complete); auto.
   - f_equal. apply IHf1; lia.
+  - destruct (skip_content br k rest) as [r'|] eqn:Es; auto.
+    apply skip_content_shorter in Es. f_equal. apply IHf1; lia.
   - apply IHf1; lia.
 Qed.
 
@@ -1130,9 +1279,9 @@ Proof. intros. unfold identity_info. cbn [i_attrs fix38 fixed]. apply app_nil_r.
 
 Theorem subkey_dates_exact : forall s,
   subkey_sig_attrs fixed s =
-    [(bs "Usage", usage_string (sc_flags (sk_sig s)));
+    [(bs "Usage", usage_string (sc_flags (sk_shown fixed s)));
      (bs "Created", fmt_date_utc (pk_created (sk_key s)));
-     (bs "Expires", match sc_keylife (sk_sig s) with
+     (bs "Expires", match sc_keylife (sk_shown fixed s) with
                     | None => bs "never"
                     | Some 0 => bs "never"
                     | Some l => fmt_date_utc (pk_created (sk_key s) + l)
@@ -1151,12 +1300,25 @@ Proof. vm_compute. reflexivity. Qed.
 (* F39: subkey created 2020-01-01, binding signature renewed on 2020-06-01 *)
 Definition f39_subkey : subkey :=
   mksub (mkpub 1577836800 18 (KECDH oid_x25519 (mkmpi 263 (64 :: repeat 7 32)) [3; 1; 8; 7]))
-        (mksig 24 22 8 [] [0; 0] [] 1590969600 (Some 107740800) None true 12).
+        (mksig 24 22 8 [] [0; 0] [] 1590969600 (Some 107740800) None true 12) None.
 Lemma f39_legacy : subkey_sig_attrs legacy f39_subkey =
   [(bs "Usage", bs "encrypt communications, encrypt storage"); (bs "Created", bs "2020-06-01"); (bs "Expires", bs "2023-06-01")].
 Proof. vm_compute. reflexivity. Qed.
 Lemma f39_fixed : subkey_sig_attrs fixed f39_subkey =
   [(bs "Usage", bs "encrypt communications, encrypt storage"); (bs "Created", bs "2020-01-01"); (bs "Expires", bs "2023-06-01")].
+Proof. vm_compute. reflexivity. Qed.
+
+(* F41: a subkey bound on 2020-01-01 for encryption with a lifetime of three years and revoked later
+   was shown with the attributes of the revocation signature: no usage, never expires *)
+Definition f41_subkey : subkey :=
+  mksub (mkpub 1577836800 18 (KECDH oid_x25519 (mkmpi 263 (64 :: repeat 7 32)) [3; 1; 8; 7]))
+        (mksig 40 22 8 [] [0; 0] [] 1600000000 None None false 0)
+        (Some (mksig 24 22 8 [] [0; 0] [] 1577836800 (Some 94608000) None true 12)).
+Lemma f41_legacy : subkey_sig_attrs legacy f41_subkey =
+  [(bs "Usage", []); (bs "Created", bs "2020-09-13"); (bs "Expires", bs "never")].
+Proof. vm_compute. reflexivity. Qed.
+Lemma f41_fixed : subkey_sig_attrs fixed f41_subkey =
+  [(bs "Usage", bs "encrypt communications, encrypt storage"); (bs "Created", bs "2020-01-01"); (bs "Expires", bs "2022-12-31")].
 Proof. vm_compute. reflexivity. Qed.
 
 (* ------------------------------------------------------------------ *)
@@ -1324,3 +1486,544 @@ Proof.
     rewrite take_app_exact, drop_app_exact. reflexivity. }
   rewrite R. reflexivity.
 Qed.
+
+(* ------------------------------------------------------------------ *)
+(* the whole packet stream: what is outside the model, what is skipped  *)
+(* ------------------------------------------------------------------ *)
+(* the only packet on which the model gives up: compressed data, algorithm 2, well-formed zlib header *)
+Theorem unmodelled_only_zlib : forall c P tag body complete,
+  read_packet c P tag body complete = RUnmod ->
+  tag = 8 /\ exists r, body = 2 :: r /\ zlib_header_ok r = true.
+Proof.
+  intros c P tag body complete H. unfold read_packet in H.
+  assert (Fin : forall p, fin complete p <> RUnmod) by (intros p; unfold fin; destruct complete; discriminate).
+  assert (Rd : forall e, rd_of_err e <> RUnmod).
+  { intros e. unfold rd_of_err. destruct (String.eqb e miss); [discriminate|]. destruct (String.eqb e eof); discriminate. }
+  destruct ((tag =? 2) || (tag =? 6) || (tag =? 14)).
+  { exfalso. destruct body as [|v b]; [destruct complete; discriminate|].
+    destruct (v <? 4).
+    { destruct (tag =? 2); [destruct (parse_sig_v3 _) | destruct (parse_key_v3 _)]; try discriminate; eapply Fin; eauto. }
+    destruct (tag =? 2).
+    - destruct (parse_sig _) as [[s ?]|e|s]; try discriminate; [eapply Fin | eapply Rd]; eauto.
+    - destruct (parse_public_key _ _ _) as [[k ?]|e|s]; try discriminate; [eapply Fin | eapply Rd]; eauto. }
+  destruct ((tag =? 5) || (tag =? 7)).
+  { exfalso. destruct (parse_public_key _ _ _) as [[k tail]|e|s]; try discriminate; [|eapply Rd; eauto].
+    destruct (parse_secret_tail _ _ _ _ _) as [u|e|s]; try discriminate. eapply Rd; eauto. }
+  destruct (tag =? 13). { exfalso. eapply Fin; eauto. }
+  destruct (tag =? 1). { exfalso. destruct (parse_enckey body); try discriminate. eapply Fin; eauto. }
+  destruct (tag =? 3).
+  { exfalso. destruct body as [|v [|cph r]]; try discriminate.
+    destruct (negb (v =? 4)); try discriminate. destruct (cipher_block_size cph =? 0); try discriminate.
+    destruct (s2k_parse P complete r); try discriminate. destruct (64 <=? lenN rest); try discriminate. eapply Fin; eauto. }
+  destruct (tag =? 4). { exfalso. destruct (parse_onepass body); try discriminate. eapply Fin; eauto. }
+  destruct (tag =? 17). { exfalso. destruct (complete && _); discriminate. }
+  destruct (tag =? 8) eqn:E8.
+  { apply N.eqb_eq in E8. split; auto. destruct body as [|a r]; [discriminate|].
+    destruct ((a =? 1) || (a =? 3)); [discriminate|].
+    destruct (a =? 2) eqn:E2; [|discriminate]. apply N.eqb_eq in E2. subst a.
+    destruct (zlib_header_ok r) eqn:Z; [|discriminate]. exists r. auto. }
+  destruct (tag =? 9); [discriminate|].
+  destruct (tag =? 18). { destruct body as [|v ?]; [discriminate|]. destruct (v =? 1); discriminate. }
+  destruct (tag =? 11). { destruct body as [|? [|n r]]; try discriminate. destruct (n + 4 <=? lenN r); discriminate. }
+  discriminate.
+Qed.
+
+(* packets of a type packet.Read does not know (marker 10, trust 12, private use 60..63, unassigned ...)
+   in front of any stream leave no trace in what ReadEntity sees *)
+Definition known_tag (t : N) : bool := mem_N t [1; 2; 3; 4; 5; 6; 7; 8; 9; 11; 13; 14; 17; 18].
+
+Lemma read_packet_unknown : forall c P tag body complete, known_tag tag = false ->
+  read_packet c P tag body complete = RSkip.
+Proof.
+  intros c P tag body complete H. unfold known_tag, mem_N in H. simpl in H.
+  repeat (apply orb_false_iff in H; destruct H as [? H]).
+  unfold read_packet.
+  repeat match goal with E : (tag =? _) = false |- _ => rewrite E; clear E end. reflexivity.
+Qed.
+
+Lemma new_tag_octet : forall tag, tag < 64 ->
+  (192 + tag <? 128) = false /\ (N.land (192 + tag) 64 =? 0) = false /\ N.land (192 + tag) 63 = tag.
+Proof.
+  assert (A : forallb (fun t => negb (192 + t <? 128) && negb (N.land (192 + t) 64 =? 0) && (N.land (192 + t) 63 =? t))
+                (map N.of_nat (seq 0 64)) = true) by (vm_compute; reflexivity).
+  intros tag H. rewrite forallb_forall in A.
+  assert (I : In tag (map N.of_nat (seq 0 64))).
+  { apply in_map_iff. exists (N.to_nat tag). split; [lia|]. apply in_seq. lia. }
+  specialize (A tag I). apply andb_true_iff in A. destruct A as [A A3]. apply andb_true_iff in A. destruct A as [A1 A2].
+  apply negb_true_iff in A1, A2. apply N.eqb_eq in A3. auto.
+Qed.
+
+Lemma read_n_app_exact : forall (a b : bytes), read_n (lenN a) (a ++ b) = Some (a, b).
+Proof.
+  intros a b. unfold read_n.
+  assert (L : lenN (a ++ b) = lenN a + lenN b) by (unfold lenN; rewrite app_length; lia).
+  rewrite L. replace (lenN a <=? lenN a + lenN b) with true by (symmetry; apply N.leb_le; lia).
+  replace (N.to_nat (lenN a)) with (length a) by (unfold lenN; lia).
+  rewrite take_app_exact, drop_app_exact. reflexivity.
+Qed.
+
+Lemma read_header_new_short : forall tag body rest, tag < 64 -> lenN body < 192 ->
+  read_header ((192 + tag) :: lenN body :: body ++ rest) = HPkt tag (BSpan (lenN body)) (body ++ rest).
+Proof.
+  intros tag body rest T L. unfold read_header.
+  destruct (new_tag_octet tag T) as (A1 & A2 & A3). rewrite A1, A2, A3.
+  unfold read_length. apply N.ltb_lt in L. rewrite L. reflexivity.
+Qed.
+
+Lemma events_fuel_skip_head : forall f c P tag body rest,
+  known_tag tag = false -> tag < 64 -> lenN body < 192 ->
+  events_fuel (S f) c P ((192 + tag) :: lenN body :: body ++ rest) = events_fuel f c P rest.
+Proof.
+  intros f c P tag body rest K T L.
+  cbn [events_fuel]. rewrite (read_header_new_short tag body rest T L).
+  cbn [read_body]. rewrite read_n_app_exact.
+  rewrite (read_packet_unknown c P tag body true K). reflexivity.
+Qed.
+
+Theorem unknown_packet_skipped : forall c P tag body rest,
+  known_tag tag = false -> tag < 64 -> lenN body < 192 ->
+  events_of c P ((192 + tag) :: lenN body :: body ++ rest) = events_of c P rest.
+Proof.
+  intros c P tag body rest K T L. unfold events_of.
+  rewrite (events_fuel_skip_head _ c P tag body rest K T L).
+  apply events_fuel_stable; simpl; rewrite ?app_length; lia.
+Qed.
+
+(* the stream-level form of C11_identity_bound / C11_subkey_bound: for EVERY octet string the
+   extended reader accepts, every child of the description is backed by an accepted signature *)
+Theorem stream_children_bound : forall c P private stream i,
+  pgp_key c P private stream = Ok i ->
+  exists e, read_entity c P (events_of c P stream) = Ok e /\
+    first_key (events_of c P stream) = Some (e_primary e) /\
+    forall child, In child (i_children i) ->
+      (exists id s, In id (e_ids e) /\ child = identity_info c (e_primary e) id /\
+         uid_followed_by (events_of c P stream) (id_name id) s /\ s_core s = id_self id /\
+         is_cert_type (sc_type (id_self id)) = true /\
+         sc_issuer (id_self id) = Some (key_id (p_H P) (e_primary e)) /\
+         sig_accepted c P (e_primary e) (uid_hash_input (e_primary e) (id_name id) ++ suffix (id_self id)) (id_self id)) \/
+      (exists sk s, In sk (e_subkeys e) /\ child = subkey_info c (p_H P) sk /\
+         subkey_followed_by (events_of c P stream) (sk_key sk) s /\ s_core s = sk_sig sk /\
+         sig_accepted c P (e_primary e) (binding_hash_input (e_primary e) (sk_key sk) ++ suffix (sk_sig sk)) (sk_sig sk)).
+Proof.
+  intros c P private stream i H.
+  destruct (children_are_bound_items _ _ _ _ _ H) as (e & R & Ch). exists e. split; auto.
+  destruct (identity_bound _ _ _ _ R) as (F & _ & Ids). split; auto.
+  intros child Hc. destruct (Ch child Hc) as [(id & Hi & E)|(sk & Hs & E)].
+  - left. destruct (Ids id Hi) as (s & U & Ec & T & Is & _ & Acc). exists id, s.
+    exact (conj Hi (conj E (conj U (conj Ec (conj T (conj Is Acc)))))).
+  - right. destruct (subkey_bound _ _ _ _ R sk Hs) as (s & U & Ec & _ & Acc & _). exists sk, s.
+    exact (conj Hs (conj E (conj U (conj Ec Acc)))).
+Qed.
+
+(* ------------------------------------------------------------------ *)
+(* changes of the primary key itself                                   *)
+(* ------------------------------------------------------------------ *)
+(* every message that is verified begins with the hashed form of the primary key ... *)
+Lemma uid_message_prefix : forall k u s,
+  uid_hash_input k u ++ suffix s =
+  (153 :: be16 (lenN (key_body k)) ++ key_body k) ++ (180 :: be32 (lenN u) ++ u) ++ suffix s.
+Proof. intros. unfold uid_hash_input, key_hash_input. rewrite <- !app_assoc. reflexivity. Qed.
+Lemma binding_message_prefix : forall k sk s,
+  binding_hash_input k sk ++ suffix s =
+  (153 :: be16 (lenN (key_body k)) ++ key_body k) ++ key_hash_input sk ++ suffix s.
+Proof. intros. unfold binding_hash_input, key_hash_input. rewrite <- !app_assoc. reflexivity. Qed.
+
+(* ... and that body is, octet for octet, the beginning of the key packet's body in the input *)
+Theorem key_packet_body_exact : forall P tag body complete sub sec k, bytes_ok body = true ->
+  read_packet fixed P tag body complete = RP (PKey sub sec k) -> exists tail, key_body k ++ tail = body.
+Proof.
+  intros P tag body complete sub sec k Hok H. unfold read_packet in H.
+  assert (Fin : forall p, fin complete p = RP (PKey sub sec k) -> p = PKey sub sec k).
+  { intros p E. unfold fin in E. destruct complete; [now inversion E | discriminate]. }
+  assert (Rd : forall e, rd_of_err e <> RP (PKey sub sec k)).
+  { intros e. unfold rd_of_err. destruct (String.eqb e miss); [discriminate|]. destruct (String.eqb e eof); discriminate. }
+  destruct ((tag =? 2) || (tag =? 6) || (tag =? 14)).
+  { destruct body as [|v b]; [destruct complete; discriminate|].
+    destruct (v <? 4).
+    { destruct (tag =? 2); [destruct (parse_sig_v3 _) | destruct (parse_key_v3 _)]; try discriminate;
+        apply Fin in H; discriminate. }
+    destruct (tag =? 2).
+    - destruct (parse_sig _) as [[s ?]|e|s]; try discriminate; [apply Fin in H; discriminate | exfalso; eapply Rd; eauto].
+    - destruct (parse_public_key fixed (p_ecok P) (v :: b)) as [[k' tail]|e|s] eqn:E; try discriminate.
+      + apply Fin in H. inversion H; subst k'. exists tail.
+        exact (parse_public_key_exact fixed (p_ecok P) _ _ _ eq_refl Hok E).
+      + exfalso; eapply Rd; eauto. }
+  destruct ((tag =? 5) || (tag =? 7)).
+  { destruct (parse_public_key fixed (p_ecok P) body) as [[k' tail]|e|s] eqn:E; try discriminate; [|exfalso; eapply Rd; eauto].
+    destruct (parse_secret_tail _ _ _ _ _) as [u|e|s]; try discriminate; [|exfalso; eapply Rd; eauto].
+    inversion H; subst k'. exists tail. exact (parse_public_key_exact fixed (p_ecok P) _ _ _ eq_refl Hok E). }
+  destruct (tag =? 13). { apply Fin in H. discriminate. }
+  destruct (tag =? 1). { destruct (parse_enckey body); try discriminate. apply Fin in H. discriminate. }
+  destruct (tag =? 3).
+  { destruct body as [|v [|cph r]]; try discriminate.
+    destruct (negb (v =? 4)); try discriminate. destruct (cipher_block_size cph =? 0); try discriminate.
+    destruct (s2k_parse P complete r); try discriminate. destruct (64 <=? lenN rest); try discriminate.
+    apply Fin in H. discriminate. }
+  destruct (tag =? 4). { destruct (parse_onepass body); try discriminate. apply Fin in H. discriminate. }
+  destruct (tag =? 17). { destruct (complete && _); discriminate. }
+  destruct (tag =? 8).
+  { destruct body as [|a r]; [discriminate|]. destruct ((a =? 1) || (a =? 3)); [discriminate|].
+    destruct (a =? 2); [|discriminate]. destruct (zlib_header_ok r); discriminate. }
+  destruct (tag =? 9); [discriminate|].
+  destruct (tag =? 18). { destruct body as [|v ?]; [discriminate|]. destruct (v =? 1); discriminate. }
+  destruct (tag =? 11). { destruct body as [|? [|n r]]; try discriminate. destruct (n + 4 <=? lenN r); discriminate. }
+  discriminate.
+Qed.
+
+(* The hypothesis for a CHANGED verification key.  [flip_sensitive P k0 genuine] speaks about what
+   verifies under the honest key k0; after a change of the primary key packet the verification key
+   is another key k1, and what the reader verifies under k1 are messages that begin with the body
+   of k1.  The honest statement is therefore about the pair (key, message): WHATEVER key the check
+   is run under, a message it accepts is one the holder of k0 signed.  For k = k0 this is
+   unforgeability.  For k <> k0 it is NOT a standard assumption and it is false for a key the
+   adversary chooses (he signs with his own key whatever he likes - and the description then shows
+   HIS fingerprint, which is what the property allows); for a key that results from flipping
+   bits of k0 while the signatures stay as they are it says that the unchanged signature values do
+   not happen to verify under the damaged key material: a statement about the primitives on
+   non-adversarial inputs, which the exhaustive single-bit sweep of the check tests empirically. *)
+Definition any_key_sensitive (P : params) (genuine : N -> bytes -> list bytes -> Prop) : Prop :=
+  forall c k msg s, sig_accepted c P k msg s -> genuine (sc_hash s) msg (sig_values s).
+
+Lemma any_key_sensitive_flip : forall P k0 genuine, any_key_sensitive P genuine -> flip_sensitive P k0 genuine.
+Proof. intros P k0 genuine H c msg s A. eapply H; eauto. Qed.
+
+(* under that hypothesis an entity that is accepted has the ORIGINAL primary key body: a change of the
+   primary key body changes every message that is verified, so no identity can be listed, and an
+   entity without identities is rejected; and every item that is listed is an original one *)
+Theorem bitflip_primary : forall strong c P k0 uids subs evs e,
+  any_key_sensitive P (genuine_of strong k0 uids subs) ->
+  sane_key k0 ->
+  read_entity c P evs = Ok e -> sane_key (e_primary e) ->
+  key_body (e_primary e) = key_body k0.
+Proof.
+  intros strong c P k0 uids subs evs e F S0 R S1.
+  destruct (identity_bound _ _ _ _ R) as (_ & N & A).
+  destruct (e_ids e) as [|i rest] eqn:Ei; [contradiction|].
+  destruct (A i (or_introl eq_refl)) as (s & _ & _ & _ & _ & _ & V).
+  apply F in V. destruct V as [(x & _ & Em & _)|(x & _ & Em & _)].
+  - unfold uid_hash_input in Em. rewrite <- !app_assoc in Em. apply key_hash_input_inj in Em; tauto.
+  - unfold uid_hash_input, binding_hash_input in Em. rewrite <- !app_assoc in Em. apply key_hash_input_inj in Em; tauto.
+Qed.
+
+Corollary changed_primary_rejected : forall strong c P k0 uids subs evs k1,
+  any_key_sensitive P (genuine_of strong k0 uids subs) ->
+  sane_key k0 -> sane_key k1 ->
+  first_key evs = Some k1 -> key_body k1 <> key_body k0 ->
+  forall e, read_entity c P evs <> Ok e.
+Proof.
+  intros strong c P k0 uids subs evs k1 F S0 S1 Fk Ne e R.
+  destruct (identity_bound _ _ _ _ R) as (Fe & _). rewrite Fk in Fe. inversion Fe; subst k1.
+  apply Ne. eapply bitflip_primary; eauto.
+Qed.
+
+(* the items: as C11_bitflip_identity / C11_bitflip_subkey, without assuming that the primary key is unchanged *)
+Theorem bitflip_items_any_key : forall strong c P k0 uids subs evs e,
+  any_key_sensitive P (genuine_of strong k0 uids subs) ->
+  sane_key k0 -> sane_key (e_primary e) ->
+  Forall (fun x => lenN (su_uid x) < 4294967296 /\ sane_sig (su_sig x)) uids ->
+  Forall (fun x => sane_key (ss_key x) /\ sane_sig (ss_sig x)) subs ->
+  read_entity c P evs = Ok e ->
+  (forall i, In i (e_ids e) -> lenN (id_name i) < 4294967296 -> sane_sig (id_self i) ->
+     exists x, In x uids /\ id_name i = su_uid x /\
+       sc_hashed (id_self i) = sc_hashed (su_sig x) /\ sig_header (id_self i) = sig_header (su_sig x) /\
+       (strong = true -> sig_values (id_self i) = sig_values (su_sig x))) /\
+  (forall sk, In sk (e_subkeys e) -> sane_key (sk_key sk) -> sane_sig (sk_sig sk) ->
+     exists x, In x subs /\ key_body (sk_key sk) = key_body (ss_key x) /\
+       sc_hashed (sk_sig sk) = sc_hashed (ss_sig x) /\ sig_header (sk_sig sk) = sig_header (ss_sig x) /\
+       (strong = true -> sig_values (sk_sig sk) = sig_values (ss_sig x))).
+Proof.
+  intros strong c P k0 uids subs evs e F S0 S1 SU SS R. split.
+  - intros i Hi Li Si. destruct (identity_bound _ _ _ _ R) as (_ & _ & A).
+    destruct (A i Hi) as (s & _ & _ & _ & _ & _ & V).
+    apply F in V. destruct V as [(x & Hx & Em & Ev)|(x & Hx & Em & _)].
+    + rewrite Forall_forall in SU. destruct (SU x Hx) as [Lx Sx].
+      apply uid_message_injective in Em; auto. destruct Em as (_ & E2 & E3 & E4).
+      exists x. repeat split; auto.
+    + exfalso. revert Em. apply uid_vs_binding_disjoint; auto.
+  - intros sk Hs Lk Ss. destruct (subkey_bound _ _ _ _ R sk Hs) as (s & _ & _ & _ & V & _).
+    apply F in V. destruct V as [(x & Hx & Em & _)|(x & Hx & Em & Ev)].
+    + exfalso. symmetry in Em. revert Em. apply uid_vs_binding_disjoint; auto.
+    + rewrite Forall_forall in SS. destruct (SS x Hx) as [Lx Sx].
+      apply binding_message_injective in Em; auto. destruct Em as (_ & E2 & E3 & E4).
+      exists x. repeat split; auto.
+Qed.
+
+(* the hypothesis is satisfiable together with an accepted key *)
+Example ex_any_key_sensitive :
+  any_key_sensitive ex_strict (genuine_of false ex_key [mksu (bs "a") (s_core ex_sig)] []) /\
+  is_ok (read_entity fixed ex_strict ex_evs) = true.
+Proof.
+  split; [|vm_compute; reflexivity].
+  intros c k msg s (_ & dg & D & _). left. exists (mksu (bs "a") (s_core ex_sig)). split; [left; reflexivity|].
+  split; [|discriminate]. simpl in D. destruct (bytes_eqb msg ex_msg) eqn:E; [|discriminate].
+  apply bytes_eqb_eq in E. exact E.
+Qed.
+
+(* ------------------------------------------------------------------ *)
+(* octets behind the fields of a key packet change nothing             *)
+(* ------------------------------------------------------------------ *)
+Lemma read_n_app : forall n l a r x, read_n n l = Some (a, r) -> read_n n (l ++ x) = Some (a, r ++ x).
+Proof.
+  intros n l a r x H. apply read_n_spec in H. destruct H as [E L]. subst l n.
+  rewrite <- app_assoc. apply read_n_app_exact.
+Qed.
+
+Lemma mpi_read_app : forall l m r x, mpi_read l = Ok (m, r) -> mpi_read (l ++ x) = Ok (m, r ++ x).
+Proof.
+  intros l m r x H. unfold mpi_read in *. destruct l as [|b0 [|b1 r0]]; try discriminate.
+  change ((b0 :: b1 :: r0) ++ x) with (b0 :: b1 :: (r0 ++ x)). cbv beta iota.
+  destruct (read_n ((b0 * 256 + b1 + 7) / 8) r0) as [[v rest]|] eqn:E; [|discriminate].
+  rewrite (read_n_app _ _ _ _ x E). inversion H; subst. reflexivity.
+Qed.
+
+Lemma parse_oid_app : forall l o r x, parse_oid l = Ok (o, r) -> parse_oid (l ++ x) = Ok (o, r ++ x).
+Proof.
+  intros l o r x H. unfold parse_oid in *. destruct l as [|n r0]; [discriminate|].
+  change ((n :: r0) ++ x) with (n :: (r0 ++ x)). cbv beta iota.
+  destruct (pgp_max_oid_len <? n); [discriminate|].
+  destruct (read_n n r0) as [[o' rest]|] eqn:E; [|discriminate].
+  rewrite (read_n_app _ _ _ _ x E). inversion H; subst. reflexivity.
+Qed.
+
+Lemma parse_kdf_app : forall c l k r x, parse_kdf c l = Ok (k, r) -> parse_kdf c (l ++ x) = Ok (k, r ++ x).
+Proof.
+  intros c l k r x H. unfold parse_kdf in *. destruct l as [|n r0]; [discriminate|].
+  change ((n :: r0) ++ x) with (n :: (r0 ++ x)). cbv beta iota.
+  destruct (n <? 3); [discriminate|].
+  destruct (read_n n r0) as [[b rest]|] eqn:E; [|discriminate].
+  rewrite (read_n_app _ _ _ _ x E).
+  destruct (negb (nth 0 b 0 =? 1)); [discriminate|].
+  destruct (fixkdf c); inversion H; subst; reflexivity.
+Qed.
+
+Ltac app_step x :=
+  let E := fresh "E" in
+  match goal with
+  | H : bind (mpi_read ?l) _ = Ok _ |- _ =>
+      apply bind_ok in H; destruct H as [[? ?] [E H]]; rewrite (mpi_read_app _ _ _ x E); cbn [bind]
+  | H : bind (parse_oid ?l) _ = Ok _ |- _ =>
+      apply bind_ok in H; destruct H as [[? ?] [E H]]; rewrite (parse_oid_app _ _ _ x E); cbn [bind]
+  | H : bind (parse_kdf ?c ?l) _ = Ok _ |- _ =>
+      apply bind_ok in H; destruct H as [[? ?] [E H]]; rewrite (parse_kdf_app _ _ _ _ x E); cbn [bind]
+  end.
+
+Lemma parse_keymat_app : forall c ecok algo l m r x,
+  parse_keymat c ecok algo l = Ok (m, r) -> parse_keymat c ecok algo (l ++ x) = Ok (m, r ++ x).
+Proof.
+  intros c ecok algo l m r x H. unfold parse_keymat in *.
+  destruct ((algo =? 1) || (algo =? 2) || (algo =? 3)).
+  { repeat app_step x.
+    match type of H with (if ?b then _ else _) = _ => destruct b end; [discriminate|]. inversion H; subst. reflexivity. }
+  destruct (algo =? 17). { repeat app_step x. inversion H; subst. reflexivity. }
+  destruct (algo =? 16). { repeat app_step x. inversion H; subst. reflexivity. }
+  destruct (algo =? 19).
+  { repeat app_step x. apply bind_ok in H. destruct H as [u [Eu H]]. rewrite Eu. cbn [bind]. inversion H; subst. reflexivity. }
+  destruct (algo =? 18).
+  { repeat app_step x. apply bind_ok in H. destruct H as [u [Eu H]]. rewrite Eu. cbn [bind]. inversion H; subst. reflexivity. }
+  destruct (algo =? 22).
+  { repeat app_step x. apply bind_ok in H. destruct H as [u [Eu H]]. rewrite Eu. cbn [bind]. inversion H; subst. reflexivity. }
+  discriminate.
+Qed.
+
+Theorem parse_public_key_app : forall c ecok l k r x,
+  parse_public_key c ecok l = Ok (k, r) -> parse_public_key c ecok (l ++ x) = Ok (k, r ++ x).
+Proof.
+  intros c ecok l k r x H. unfold parse_public_key in *.
+  destruct l as [|v [|t0 [|t1 [|t2 [|t3 [|algo r0]]]]]]; try discriminate.
+  change ((v :: t0 :: t1 :: t2 :: t3 :: algo :: r0) ++ x) with (v :: t0 :: t1 :: t2 :: t3 :: algo :: (r0 ++ x)). cbv beta iota.
+  destruct (negb (v =? 4)); [discriminate|].
+  apply bind_ok in H. destruct H as [[m rest] [E H]].
+  rewrite (parse_keymat_app _ _ _ _ _ _ x E). cbn [bind]. inversion H; subst. reflexivity.
+Qed.
+
+(* hence the key that packet.Read returns for a key packet, and with it the fingerprint, key ID and every
+   attribute shown, do not depend on octets behind the key's fields (they are consumed and dropped) *)
+Theorem key_packet_trailing_octets : forall c P tag body x sub k,
+  ((tag =? 6) || (tag =? 14)) = true ->
+  read_packet c P tag body true = RP (PKey sub false k) ->
+  read_packet c P tag (body ++ x) true = RP (PKey sub false k).
+Proof.
+  intros c P tag body x sub k Ht H. unfold read_packet in *.
+  assert (T2 : (tag =? 2) = false).
+  { apply orb_true_iff in Ht. destruct Ht as [E|E]; apply N.eqb_eq in E; subst; reflexivity. }
+  rewrite T2 in *. simpl orb in *. rewrite Ht in *.
+  destruct body as [|v b]; [discriminate|]. change ((v :: b) ++ x) with (v :: (b ++ x)). cbv beta iota.
+  destruct (v <? 4).
+  { destruct (parse_key_v3 (v :: b)); discriminate. }
+  destruct (parse_public_key c (p_ecok P) (v :: b)) as [[k' tail]|e|s] eqn:E.
+  - change (v :: b ++ x) with ((v :: b) ++ x). rewrite (parse_public_key_app _ _ _ _ _ x E). exact H.
+  - exfalso. unfold rd_of_err in H. destruct (String.eqb e miss); [discriminate|]. destruct (String.eqb e eof); discriminate.
+  - discriminate.
+Qed.
+
+(* ------------------------------------------------------------------ *)
+(* which of several self-signatures / binding signatures counts        *)
+(* ------------------------------------------------------------------ *)
+(* the selection loops of addSubkey (shouldReplaceSubkeySig) and addUserID as folds *)
+Definition sel_sub (acc : option sigcore) (l : list sigcore) : option sigcore :=
+  fold_left (fun a s => if should_replace a s then Some s else a) l acc.
+Definition sel_self (c : cfg) (acc : option sigcore) (l : list sigcore) : option sigcore :=
+  fold_left (fun a s => if should_replace_self c a s then Some s else a) l acc.
+
+Definition not_rev (s : sigcore) : Prop := (sc_type s =? pgp_sigtype_subkey_revocation) = false.
+
+(* binding signatures: the maximal creation time, the FIRST among equals *)
+Lemma sel_sub_spec : forall l a s, not_rev a -> Forall not_rev l -> sel_sub (Some a) l = Some s ->
+  (s = a /\ forall x, In x l -> sc_created x <= sc_created a) \/
+  (exists l1 l2, l = l1 ++ s :: l2 /\ sc_created a < sc_created s /\
+     (forall x, In x l1 -> sc_created x < sc_created s) /\ (forall x, In x l2 -> sc_created x <= sc_created s)).
+Proof.
+  induction l as [|x l IH]; intros a s Na Nl H.
+  - simpl in H. inversion H; subst. left. split; auto. intros x [].
+  - inversion Nl as [|? ? Nx Nl']; subst. unfold sel_sub in H. simpl in H. fold (sel_sub) in H.
+    unfold not_rev in Na. rewrite Na in H.
+    destruct (sc_created a <? sc_created x) eqn:E.
+    + apply N.ltb_lt in E. change (sel_sub (Some x) l = Some s) in H.
+      destruct (IH x s Nx Nl' H) as [[Es M]|(l1 & l2 & El & Lt & M1 & M2)].
+      * subst s. right. exists [], l. simpl. repeat split; auto. intros y [].
+      * right. exists (x :: l1), l2. subst l. simpl. repeat split; auto; try lia.
+        intros y [Ey|Hy]; [subst; auto | auto].
+    + apply N.ltb_ge in E. change (sel_sub (Some a) l = Some s) in H.
+      destruct (IH a s Na Nl' H) as [[Es M]|(l1 & l2 & El & Lt & M1 & M2)].
+      * left. split; auto. intros y [Ey|Hy]; [subst; auto | auto].
+      * right. exists (x :: l1), l2. subst l. simpl. repeat split; auto.
+        intros y [Ey|Hy]; [subst; lia | auto].
+Qed.
+
+Theorem sel_sub_latest : forall l s, Forall not_rev l -> sel_sub None l = Some s ->
+  exists l1 l2, l = l1 ++ s :: l2 /\
+    (forall x, In x l1 -> sc_created x < sc_created s) /\ (forall x, In x l2 -> sc_created x <= sc_created s).
+Proof.
+  intros l s Nl H. destruct l as [|x l]; [discriminate|].
+  inversion Nl as [|? ? Nx Nl']; subst. unfold sel_sub in H. simpl in H. change (sel_sub (Some x) l = Some s) in H.
+  destruct (sel_sub_spec l x s Nx Nl' H) as [[Es M]|(l1 & l2 & El & Lt & M1 & M2)].
+  - subst s. exists [], l. simpl. repeat split; auto. intros y [].
+  - exists (x :: l1), l2. subst l. simpl. repeat split; auto. intros y [Ey|Hy]; [subst; auto | auto].
+Qed.
+
+Lemma sel_sub_nonempty : forall l a, exists s, sel_sub (Some a) l = Some s.
+Proof.
+  induction l as [|x l IH]; intros a; [exists a; reflexivity|].
+  unfold sel_sub. cbn [fold_left]. destruct (should_replace (Some a) x); apply IH.
+Qed.
+
+(* self-signatures of an identity (repaired code): the maximal creation time, the LAST among equals *)
+Lemma sel_self_spec : forall l a s, sel_self fixed (Some a) l = Some s ->
+  (s = a /\ forall x, In x l -> sc_created x < sc_created a) \/
+  (exists l1 l2, l = l1 ++ s :: l2 /\ sc_created a <= sc_created s /\
+     (forall x, In x l1 -> sc_created x <= sc_created s) /\ (forall x, In x l2 -> sc_created x < sc_created s)).
+Proof.
+  induction l as [|x l IH]; intros a s H.
+  - simpl in H. inversion H; subst. left. split; auto. intros x [].
+  - unfold sel_self in H. simpl in H.
+    destruct (sc_created x <? sc_created a) eqn:E; simpl in H.
+    + apply N.ltb_lt in E. change (sel_self fixed (Some a) l = Some s) in H.
+      destruct (IH a s H) as [[Es M]|(l1 & l2 & El & Le & M1 & M2)].
+      * left. split; auto. intros y [Ey|Hy]; [subst; auto | auto].
+      * right. exists (x :: l1), l2. subst l. simpl. repeat split; auto.
+        intros y [Ey|Hy]; [subst; lia | auto].
+    + apply N.ltb_ge in E. change (sel_self fixed (Some x) l = Some s) in H.
+      destruct (IH x s H) as [[Es M]|(l1 & l2 & El & Le & M1 & M2)].
+      * subst s. right. exists [], l. simpl. repeat split; auto. intros y [].
+      * right. exists (x :: l1), l2. subst l. simpl. repeat split; auto; try lia.
+        intros y [Ey|Hy]; [subst; auto | auto].
+Qed.
+
+Theorem sel_self_latest : forall l s, sel_self fixed None l = Some s ->
+  exists l1 l2, l = l1 ++ s :: l2 /\
+    (forall x, In x l1 -> sc_created x <= sc_created s) /\ (forall x, In x l2 -> sc_created x < sc_created s).
+Proof.
+  intros l s H. destruct l as [|x l]; [discriminate|].
+  unfold sel_self in H. simpl in H. change (sel_self fixed (Some x) l = Some s) in H.
+  destruct (sel_self_spec l x s H) as [[Es M]|(l1 & l2 & El & Le & M1 & M2)].
+  - subst s. exists [], l. simpl. repeat split; auto. intros y [].
+  - exists (x :: l1), l2. subst l. simpl. repeat split; auto. intros y [Ey|Hy]; [subst; auto | auto].
+Qed.
+
+(* the code as found kept the last self-signature in the stream, whatever its date *)
+Lemma last_indep : forall {A} (l : list A) a b, l <> [] -> last l a = last l b.
+Proof.
+  induction l as [|x l IH]; intros a b H; [contradiction|].
+  destruct l as [|y l]; [reflexivity|]. change (last (y :: l) a = last (y :: l) b). apply IH. discriminate.
+Qed.
+Lemma sel_self_legacy_last : forall l a, sel_self legacy (Some a) l = Some (last l a).
+Proof.
+  induction l as [|x l IH]; intros a; [reflexivity|].
+  unfold sel_self. cbn [fold_left]. change (sel_self legacy (Some x) l = Some (last (x :: l) a)).
+  rewrite IH. destruct l as [|y l]; [reflexivity|]. f_equal.
+  change (last (y :: l) x = last (y :: l) a). apply last_indep. discriminate.
+Qed.
+
+(* the state machine really computes these folds over a run of verified signatures *)
+Section Runs.
+  Variable c : cfg.
+  Variable P : params.
+  Variable primary : pubkey.
+  Variable pid : N.
+
+  Fixpoint steps (st : est) (m : mode) (l : list sigp) : result (est * mode) :=
+    match l with
+    | [] => Ok (st, m)
+    | s :: r =>
+        match step c P primary pid st m (PSig s) with
+        | Ok (Cont st' m') => steps st' m' r
+        | Ok (Stop _) => Err "stop"
+        | Err e => Err e
+        | Panic x => Panic x
+        end
+    end.
+
+  Lemma binding_not_rev : (pgp_sigtype_subkey_binding =? pgp_sigtype_subkey_revocation) = false.
+  Proof. reflexivity. Qed.
+
+  Lemma steps_sub : forall sigs st k sg bd,
+    Forall (fun s => sc_type (s_core s) = pgp_sigtype_subkey_binding /\ verify_key_sig c P primary k s = Ok tt) sigs ->
+    steps st (MSub k sg bd) sigs = Ok (st, MSub k (sel_sub sg (map s_core sigs)) (sel_sub bd (map s_core sigs))).
+  Proof.
+    induction sigs as [|s r IH]; intros st k sg bd H; [reflexivity|].
+    inversion H as [|? ? [Ht Hv] Hr]; subst. cbn [steps]. rewrite step_sub_sig.
+    unfold binding_type. rewrite Ht, N.eqb_refl. simpl orb. simpl negb. cbv iota.
+    rewrite Hv. cbn [bind]. rewrite binding_not_rev.
+    destruct (should_replace sg (s_core s)) eqn:E1; destruct (should_replace bd (s_core s)) eqn:E2;
+      rewrite IH by assumption; unfold sel_sub; simpl; rewrite ?E1, ?E2; reflexivity.
+  Qed.
+
+  Lemma steps_uid : forall sigs st name self others,
+    Forall (fun s => is_self_cert pid (s_core s) = true /\ verify_uid_sig c P primary name (s_core s) = Ok tt) sigs ->
+    steps st (MUid name self others) sigs = Ok (st, MUid name (sel_self c self (map s_core sigs)) others).
+  Proof.
+    induction sigs as [|s r IH]; intros st name self others H; [reflexivity|].
+    inversion H as [|? ? [Hc Hv] Hr]; subst. cbn [steps]. rewrite step_uid_sig. rewrite Hc, Hv. cbn [bind].
+    rewrite IH by assumption. unfold sel_self. simpl. reflexivity.
+  Qed.
+
+  (* and a run of signature packets in the packet loop is exactly [steps] *)
+  Lemma step_sig_no_stop : forall st m s st', step c P primary pid st m (PSig s) <> Ok (Stop st').
+  Proof.
+    intros st m s st' H. destruct m as [|name self others|k sg bd].
+    - rewrite step_top in H. simpl in H. destruct (_ =? _); discriminate.
+    - rewrite step_uid_sig in H. destruct (is_self_cert pid (s_core s)); [|discriminate].
+      destruct (verify_uid_sig c P primary name (s_core s)); discriminate.
+    - rewrite step_sub_sig in H. destruct (negb _); [discriminate|].
+      destruct (verify_key_sig c P primary k s); try discriminate. cbn [bind] in H.
+      destruct (_ =? _); [discriminate|]. destruct (should_replace sg (s_core s)); discriminate.
+  Qed.
+
+  Lemma run_packets_steps : forall sigs st m st' m' rest,
+    steps st m sigs = Ok (st', m') ->
+    run_packets c P primary pid st m (sig_evs sigs ++ rest) = run_packets c P primary pid st' m' rest.
+  Proof.
+    induction sigs as [|s r IH]; intros st m st' m' rest H.
+    - inversion H; subst. reflexivity.
+    - cbn [steps] in H. simpl. destruct (step c P primary pid st m (PSig s)) as [[st1 m1|st1]|e|x]; try discriminate.
+      cbn [bind]. apply IH. exact H.
+  Qed.
+End Runs.
+
+(* F42: two self-signatures, the newer one first in the stream: the old code showed the superseded one *)
+Definition f42_new : sigcore := mksig 19 22 8 [] [0; 0] [] 1600000000 (Some 315360000) (Some 1) true 35.
+Definition f42_old : sigcore := mksig 19 22 8 [] [0; 0] [] 1500000000 (Some 86400) (Some 1) true 3.
+Lemma f42_legacy : sel_self legacy None [f42_new; f42_old] = Some f42_old.
+Proof. reflexivity. Qed.
+Lemma f42_fixed : sel_self fixed None [f42_new; f42_old] = Some f42_new.
+Proof. reflexivity. Qed.
